@@ -169,6 +169,54 @@ def h_chain(ctx, variant):
         Edfa.propagate = orig_prop
 
 
+def h_carriers(ctx, k):
+    """carriers_to_spectral_information: the arbitrary carrier list of a request (dict frequency -> Carrier) supplied in every
+    order, carriers all different, transmit powers symbolic: every channel keeps its own baud rate, slot width, roll-off,
+    offset, transmitter OSNR/power and label"""
+    from gnpy.core.info import carriers_to_spectral_information, Carrier
+    symbolic_ctors(ctx)
+    order = ctx.choice('supply order', list(itertools.permutations(range(k))))
+    f = [193.0e12 + 150e9 * i for i in range(k)]
+    spec = {}
+    txp = [ctx.real(f'tx_power{i}', lo=0, lo_strict=True, hi=0.01) for i in range(k)]
+    for i in order:
+        spec[f[i]] = Carrier(delta_pdb=0.5 * i, baud_rate=(32 + 8 * i) * 1e9, slot_width=(50 + 12.5 * i) * 1e9, roll_off=0.1 + 0.01 * i,
+                             tx_osnr=35.0 + i, tx_power=txp[i], label=f'ch{i}')
+    si = carriers_to_spectral_information(spec, power=1e-3)
+    ctx.prove('one channel per carrier, in frequency order', [float(x) for x in si.frequency] == f, info=dict(order=list(order)))
+    for i in range(k):
+        ctx.prove(f'carrier {i} keeps its own attributes',
+                  si.label[i] == f'ch{i}' and float(si.baud_rate[i]) == (32 + 8 * i) * 1e9 and float(si.slot_width[i]) == (50 + 12.5 * i) * 1e9
+                  and float(si.roll_off[i]) == 0.1 + 0.01 * i and float(si.delta_pdb_per_channel[i]) == 0.5 * i and
+                  float(si.tx_osnr[i]) == 35.0 + i and bool(eq(si.tx_power[i], txp[i])) and bool(eq(si._pch[i], txp[i])),
+                  info=dict(order=list(order), label=str(si.label[i]), baud=float(si.baud_rate[i])))
+
+
+def h_mux_many(ctx, nbands):
+    """muxed_spectral_information / demuxed_spectral_information with 1-4 band pieces given in every order (symbolic powers
+    and shares): the merge holds every carrier of every piece exactly once, in frequency order, with its own state"""
+    from gnpy.core.info import muxed_spectral_information
+    symbolic_ctors(ctx)
+    order = ctx.choice('order of the pieces', list(itertools.permutations(range(nbands))))
+    pieces, ref = [], []
+    for b in range(nbands):
+        fr = [186.0e12 + 3.0e12 * b + 100e9 * j for j in range(2)]
+        si = make_si(ctx, 2, tag=f'b{b}_', freqs=fr, labels=[f'b{b}c{j}' for j in range(2)])
+        pieces.append(si)
+        for j in range(2):
+            ref.append((fr[j], f'b{b}c{j}', si._pch[j], si._signal_ratio[j], si._ase_ratio[j], si._nli_ratio[j]))
+    out = muxed_spectral_information([pieces[b] for b in order])
+    ref.sort(key=lambda r: r[0])
+    ctx.prove('merge holds every carrier of every piece once, in frequency order',
+              [float(x) for x in out.frequency] == [r[0] for r in ref] and list(out.label) == [r[1] for r in ref],
+              info=dict(order=list(order), got=[str(x) for x in out.label]))
+    if out.number_of_channels != len(ref):
+        return
+    for i, r in enumerate(ref):
+        ctx.prove(f'carrier {r[1]} keeps its power and shares', And(eq(out._pch[i], r[2]), eq(out._signal_ratio[i], r[3]),
+                                                                    eq(out._ase_ratio[i], r[4]), eq(out._nli_ratio[i], r[5])))
+
+
 def jobs(tier):
     ks = [1, 2, 3] if tier == 'quick' else [1, 2, 3, 4]
     js = []
@@ -176,6 +224,10 @@ def jobs(tier):
         for via in ('init', 'create_arbitrary'):
             js.append(dict(name=f'H7a:construct:{via}:k{k}', fn='h_construct', params=dict(k=k, via=via), cost=10 ** k,
                            witness_every=1 if k < 3 else 5, budget_s=200 if tier == 'quick' else 600))
+    for k in ([2, 3] if tier == 'quick' else [2, 3, 4]):
+        js.append(dict(name=f'H7c:carrier_list_any_order:k{k}', fn='h_carriers', params=dict(k=k), cost=20))
+    for nb in ([1, 2, 3] if tier == 'quick' else [1, 2, 3, 4]):
+        js.append(dict(name=f'H7d:mux_of_{nb}_bands_any_order', fn='h_mux_many', params=dict(nbands=nb), cost=20))
     for v in ('ordered', 'swapped'):
         js.append(dict(name=f'H7b:filter_and_amplifier_chain:{v}', fn='h_chain', params=dict(variant=v), cost=2000, witness_every=10,
                        budget_s=250 if tier == 'quick' else 600))
